@@ -703,6 +703,10 @@ class VM:
             ):
                 raise JSTypeError("Right-hand side of instanceof is not callable")
 
+            # A bound function stands for the function it was made from
+            while hasattr(constructor, "_original_func"):
+                constructor = constructor._original_func
+
             # Check prototype chain
             if not isinstance(obj, JSObject):
                 self.stack.append(False)
